@@ -37,7 +37,7 @@ def handle (sess : Sess) (line : String) : String × Sess :=
         if sess.dead then ("skipped", sess)
         else if fn = "assert" then
           match macroOp (envLookup sess.env) args sess.st with
-          | some (r, st') => (r ++ " ## " ++ dumpState st' ++ "\t-\t-\t" ++ (match Rivia.Spec.invViolation st' with | none => "inv-ok" | some c => "inv-broken:" ++ c), { sess with st := st' })
+          | some (r, st') => (r ++ "\t" ++ (match Rivia.Spec.invViolation st' with | none => "inv-ok" | some c => "inv-broken:" ++ c), { sess with st := st' })
           | none => ("bad-op", sess)
         else match memfsOp (envLookup sess.env) fn args sess.st with
           | some (op, r, st') =>
